@@ -398,48 +398,52 @@ bool Component::hasReset(const ResetPtr &reset) const
     return pFunc()->findReset(reset) != pFunc()->mResets.end();
 }
 
-ComponentPtr Component::clone() const
+ComponentPtr Component::ComponentImpl::clone(ImportSourceMap &importSources) const
 {
-    auto c = create();
+    auto c = Component::create();
 
-    c->setId(id());
-    c->setName(name());
-    c->setEncapsulationId(encapsulationId());
-    c->setMath(math());
+    c->setId(mComponent->id());
+    c->setName(mComponent->name());
+    c->setEncapsulationId(mComponent->encapsulationId());
+    c->setMath(mComponent->math());
 
-    if (isImport()) {
-        c->setImportSource(importSource());
+    if (mComponent->isImport()) {
+        c->setImportSource(clonedImportSource(mComponent->importSource(), importSources));
     }
 
-    c->setImportReference(importReference());
+    c->setImportReference(mComponent->importReference());
 
-    for (size_t index = 0; index < variableCount(); ++index) {
-        auto v = variable(index);
+    for (const auto &v : mVariables) {
         c->addVariable(v->clone());
     }
 
-    for (size_t index = 0; index < resetCount(); ++index) {
-        auto r = reset(index);
+    auto thisComponent = mComponent->shared_from_this();
+    for (const auto &r : mResets) {
         auto rClone = r->clone();
         c->addReset(rClone);
-        size_t variableIndex = indexOf(r->variable(), shared_from_this());
-        if (variableIndex < variableCount()) {
+        size_t variableIndex = indexOf(r->variable(), thisComponent);
+        if (variableIndex < mVariables.size()) {
             auto v = c->variable(variableIndex);
             rClone->setVariable(v);
         }
-        size_t testVariableIndex = indexOf(r->testVariable(), shared_from_this());
-        if (testVariableIndex < variableCount()) {
+        size_t testVariableIndex = indexOf(r->testVariable(), thisComponent);
+        if (testVariableIndex < mVariables.size()) {
             auto v = c->variable(testVariableIndex);
             rClone->setTestVariable(v);
         }
     }
 
-    for (size_t index = 0; index < componentCount(); ++index) {
-        auto cChild = component(index);
-        c->addComponent(cChild->clone());
+    for (const auto &cChild : mComponents) {
+        c->addComponent(cChild->pFunc()->clone(importSources));
     }
 
     return c;
+}
+
+ComponentPtr Component::clone() const
+{
+    ImportSourceMap importSources;
+    return pFunc()->clone(importSources);
 }
 
 bool doRequiresImport(const ComponentConstPtr &thisComponent)
